@@ -595,7 +595,9 @@ FIXED_PROGRAMS = ['#queue [1]', '#queue 1', '#inst "2020-01-02T03:04:05Z"', '#in
                   '#true 1', '"\\u6a91090e"', '"\\u00e9"', '#b "a\\x41"', '#b "\xe9"', '#:a{:b 1 c 2}', '#::{:b 1}',
                   "^:m ^{:k 1} [a]", "#(+ % %2)", "`(a ~b ~@c d#)", "#'foo/bar", "##Inf", "#_#_a b c",
                   # unhashable values (Python lists / dicts / sets) as set elements and map keys
-                  "#{#py []}", "#{[1] #py {}}", "#{#py #{1}}", "{#py [] 1}", "#{1 1}", "{1 2 1 3}"]
+                  "#{#py []}", "#{[1] #py {}}",
+                  # \u / \U escapes outside the code-point range (chr raises ValueError or OverflowError)
+                  '"\\U8001F600"', '"\\U00110000"', '"\\UFFFFFFFF"', '"\\U0001F600"', "#{#py #{1}}", "{#py [] 1}", "#{1 1}", "{1 2 1 3}"]
 
 
 class Gen:
